@@ -304,7 +304,7 @@ type obs struct {
 // queryKinds are the queries documented to refresh an auto-refreshed cache
 // when needed.  A client may use any one of them alone: whichever comes first
 // after a change must bring the cache up to date.
-var queryKinds = []string{"ListDevices", "GetDevice", "ListVendors", "ListClasses", "GetVendorSpecs", "InjectDevices"}
+var queryKinds = []string{"ListDevices", "GetDevice", "ListVendors", "ListClasses", "GetVendorSpecs", "InjectDevices", "Refresh"}
 
 func vendorsOf(probe []string) []string {
 	set := map[string]bool{}
@@ -344,6 +344,9 @@ func touch(c *cdi.Cache, probe []string, kind string) {
 			name = probe[0]
 		}
 		_, _ = c.InjectDevices(&oci.Spec{}, name)
+	case "Refresh":
+		// in auto mode: refreshes only if the cache is out of date
+		_ = c.Refresh()
 	}
 }
 
@@ -423,9 +426,18 @@ func observeFirst(c *cdi.Cache, probe []string, first string, withRefresh bool) 
 			}
 		},
 	}
+	refreshed := false
+	parts["Refresh"] = func() {
+		if withRefresh && !refreshed {
+			refreshed = true
+			if err := c.Refresh(); err != nil {
+				o.Refresh = refreshLines(err)
+			}
+		}
+	}
 	parts[first]()
 	for _, k := range queryKinds {
-		if k != first {
+		if k != first && k != "Refresh" {
 			parts[k]()
 		}
 	}
@@ -438,11 +450,7 @@ func observeFirst(c *cdi.Cache, probe []string, first string, withRefresh bool) 
 		}
 	}
 	sort.Strings(o.ErrKeys)
-	if withRefresh {
-		if err := c.Refresh(); err != nil {
-			o.Refresh = refreshLines(err)
-		}
-	}
+	parts["Refresh"]()
 	return o
 }
 
